@@ -230,10 +230,43 @@ def coolant_weights(S, cfg):
 coolant_weights.cname = 'RoddedRegion.calculate_pin_temperatures'
 
 
+def loop_exit(S, cfg):
+    """exit condition of the three conductivity iterations, for a VECTOR of pins: when the loop test is false, the last
+    two iterates of EVERY pin agree within the tolerance (no pin leaves the loop unconverged because another one has
+    converged)"""
+    from dassh import pin_model
+    import ast
+    which = cfg['loop']
+    fn, ordinal = {'clad': (pin_model.PinModel.calc_clad_temps, 0), 'gap': (pin_model.PinModel.calc_fuel_surf_temp, 0),
+                   'fuel': (pin_model.PinModel.calc_fuel_temps, 1)}[which]
+    cut = loopcut.Cut(fn, ordinal, kind=None)
+    S.note(f'loop cut from source: `{cut.source.splitlines()[0]}`')
+    # the two iterates compared by the test: the names that occur in the loop test besides the tolerance
+    names = sorted({n.id for n in ast.walk(cut.loop.test) if isinstance(n, ast.Name)} - {'np', 'atol'})
+    S.holds('exit.test_compares_two_iterates', len(names) == 2)
+    n_pin = cfg.get('n_pin', 3)
+    a = S.vec('iterate_a', n_pin, 'pos', 600.0, 1200.0)
+    b = S.vec('iterate_b', n_pin, 'pos', 600.0, 1200.0)
+    atol = 1e-6
+    env = {names[0]: a, names[1]: b, 'atol': atol}
+    t = cut.run_test(env)
+    sym = S.mode == 'sym'
+    S.assume(~t if sym and not isinstance(t, (bool, np.bool_)) else (not t), 'loop test false (exit)')
+    for i in range(n_pin):
+        S.le(f'exit.converged_from_above[{i}]', a[i] - b[i], atol)
+        S.le(f'exit.converged_from_below[{i}]', b[i] - a[i], atol)
+    S.le('canary.exit_iterates_equal', a[0] - b[0], 0 * a[0], canary=True)
+
+
+loop_exit.cname = 'PinModel conductivity iterations/loop-exit'
+loop_exit.run_kw = dict(max_paths=400, pool_size=8, check_div=False)
+
+
 def configs(tier):
     out = [(whole, dict(n_pin=1)), (whole, dict(n_pin=1, annular=True)), (clad_body, dict()), (gap_body, dict()),
            (fuel_body, dict()), (fuel_body, dict(annular=True)), (coolant_weights, dict(n_ring=2)),
-           (coolant_weights, dict(n_ring=3))]
+           (coolant_weights, dict(n_ring=3)),
+           (loop_exit, dict(loop='clad')), (loop_exit, dict(loop='gap')), (loop_exit, dict(loop='fuel'))]
     if tier == 'thorough':
         out += [(whole, dict(n_pin=2)), (coolant_weights, dict(n_ring=4))]
     return out
